@@ -194,12 +194,22 @@ def split_block_heads(lines, counts):
 
 
 def widen_visibility(lines, counts):
-    """T15: pub(super) -> pub (visibility has no effect on what is proved; lets contracts name the fields)."""
+    """T15: pub(super) -> pub, private struct fields -> pub (visibility has no effect on what is proved; lets contracts
+    name the fields, and keeps Verus from treating the struct as opaque in the contracts of public functions)."""
     out = []
+    in_struct = False
     for txt, no in lines:
         if 'pub(super)' in txt:
             counts.bump('T15_pub_super', txt.count('pub(super)'))
             txt = txt.replace('pub(super)', 'pub')
+        s = txt.strip()
+        if re.match(r'^(pub )?struct \w+.*\{$', s):
+            in_struct = True
+        elif in_struct and s.startswith('}'):
+            in_struct = False
+        elif in_struct and re.match(r'^[a-z_]\w*: ', s):
+            counts.bump('T15_private_field')
+            txt = txt[:len(txt) - len(txt.lstrip())] + 'pub ' + s
         out.append((txt, no))
     return out
 
@@ -469,10 +479,22 @@ def merge(olines, base, cur, relpath, overlay_name):
             origin.append(('C', relpath, cur[cpos][1]))
             cpos += 1
 
+    pending = []   # attribute lines (`#[..]`) belong to the code line that follows them
+
+    def emit_pending():
+        for pl in pending:
+            out.append(pl.text)
+            origin.append(('A', overlay_name, pl.ono))
+        del pending[:]
+
     for ol in olines:
         if ol.bidx is None:
             if ol.kind not in ('plain', 'ret', 'iter'):
                 raise SystemExit('%s:%d: rewrite directive does not match any base line: %r' % (overlay_name, ol.ono, ol.base))
+            if ol.text.strip().startswith('#['):
+                pending.append(ol)
+                continue
+            emit_pending()
             out.append(ol.text)
             origin.append(('A', overlay_name, ol.ono))
             continue
@@ -486,6 +508,7 @@ def merge(olines, base, cur, relpath, overlay_name):
         if c < cpos:
             continue
         flush(c)
+        emit_pending()
         ctext = cur[c][0]
         for k, t in enumerate(derive(ol, ctext, tag == 'eq', lost)):
             out.append(t)
@@ -494,6 +517,7 @@ def merge(olines, base, cur, relpath, overlay_name):
             else:
                 origin.append(('C', relpath, cur[c][1]))
         cpos = c + 1
+    emit_pending()
     flush(len(cur))
     info = {'changed_lines': changed, 'lost_rewrites': lost}
     return out, origin, info
